@@ -283,6 +283,8 @@ class C15:
     EXTRA_TRUST = ["the coordinate theorems are over the real numbers with Complex.arg as atan2; floating-point evaluation is checked by correspondence"]
 
     def gen_case(self, rng, k, tier):
+        if k % 13 == 6:
+            return self.gen_f32(rng)
         r = rng.random()
         if r < 0.45:
             return self.gen_special(rng)
@@ -291,6 +293,111 @@ class C15:
         if r < 0.93:
             return self.gen_baddims(rng)
         return self.gen_radius(rng)
+
+    # ------------------------------------------------------------------ float32 input: the transform must not lose precision
+    def gen_f32(self, rng):
+        """points given as float32 arrays lying a few 1e-8 rad beside an axis-aligned phi edge (0 = 2pi, pi/2, pi, 3pi/2):
+        a transform carried out in the input's own precision rounds phi across the edge, the float64 transform does not"""
+        klass = rng.choice(["PolarHistogram", "PolarHistogram", "CylindricalHistogram", "SphericalHistogram"])
+        nphi = rng.choice([4, 8])
+        pts = []
+        for _ in range(rng.choice([2, 4, 6])):
+            r = rng.choice([0.5, 1.5, 3.0])
+            delta = rng.choice([2e-8, 5e-8, 1e-7, 3e-7]) * rng.choice([-1, 1])
+            axis = rng.choice(["+x", "+y", "-x", "-y"])
+            xy = {"+x": (r, r * delta), "+y": (-r * delta, r), "-x": (-r, -r * delta), "-y": (r * delta, -r)}[axis]
+            p = [float(np.float32(xy[0])), float(np.float32(xy[1]))]
+            if klass != "PolarHistogram":
+                p.append(float(np.float32(rng.choice([-1.0, 0.5, 1.0]))))
+            pts.append(p)
+        return {"kind": "f32", "class": klass, "nphi": nphi, "points": pts,
+                "tags": ["kind:f32", "class:" + klass, f"nphi:{nphi}"]}
+
+    @staticmethod
+    def _f32_edges(case):
+        phi = [2 * math.pi * i / case["nphi"] for i in range(case["nphi"] + 1)]
+        if case["class"] == "PolarHistogram":
+            return [[0.0, 1.0, 2.0, 4.0], phi]
+        if case["class"] == "CylindricalHistogram":
+            return [[0.0, 1.0, 2.0, 4.0], phi, [-2.0, 0.0, 2.0]]
+        return [[0.0, 1.0, 2.0, 4.0, 8.0], [0.0, math.pi / 2, math.pi], phi]
+
+    def run_f32(self, case):
+        from physt import special_histograms as sp
+        klass = getattr(sp, case["class"])
+        edges = [np.array(e) for e in self._f32_edges(case)]
+        P64 = np.array(case["points"], dtype=np.float64)
+        P32 = P64.astype(np.float32)
+        assert (P32.astype(np.float64) == P64).all()        # the points are float32 numbers
+        out, log = {}, []
+
+        def guard(f):
+            try:
+                return f()
+            except Exception as e:
+                log.append(f"{type(e).__name__}: {e}"[:160])
+                return "ERROR"
+
+        def cell_of(h):
+            fr = np.asarray(h.frequencies)
+            return [[int(i) for i in ix] for ix in np.argwhere(fr > 0)], float(h.missed)
+        for name, P in (("f64", P64), ("f32", P32)):
+            h0 = klass(edges)
+            out["find_" + name] = [guard(lambda p=p: (lambda r: None if r is None else [int(i) for i in r])(h0.find_bin(p))) for p in P]
+            h1_ = klass(edges)
+            guard(lambda: h1_.fill_n(P))
+            out["fill_n_" + name] = [[int(v) for v in np.asarray(h1_.frequencies).ravel()], float(h1_.missed)]
+            h2_ = klass(edges)
+            out["fill_" + name] = [guard(lambda p=p: (lambda r: None if r is None else [int(i) for i in r])(h2_.fill(p))) for p in P]
+            out["fill_total_" + name] = [[int(v) for v in np.asarray(h2_.frequencies).ravel()], float(h2_.missed)]
+        out["shape"] = [len(e) - 1 for e in edges]
+        return {"outs": out, "log": log}
+
+    def oracle_f32(self, case, io):
+        o, fails = io["outs"], []
+        edges = self._f32_edges(case)
+        kinds = KIND[case["class"]]
+
+        def true_bin(p):
+            x, y = p[0], p[1]
+            z = p[2] if len(p) > 2 else 0.0
+            phi = math.atan2(y, x) % (2 * math.pi)
+            coords = {"phi": phi, "z": z}
+            if case["class"] == "SphericalHistogram":
+                coords["r"] = math.sqrt(x * x + y * y + z * z)
+                coords["theta"] = math.atan2(math.hypot(x, y), z)
+            else:
+                coords["r"] = math.hypot(x, y)
+            idx = []
+            for kd, e in zip(kinds, edges):
+                v = coords["r" if kd in ("r", "rho") else kd]
+                k = None
+                for i in range(len(e) - 1):
+                    if e[i] <= v < e[i + 1] or (i == len(e) - 2 and v == e[-1]):
+                        k = i
+                if k is None:
+                    return None
+                idx.append(k)
+            return idx
+        want = [true_bin(p) for p in case["points"]]
+        for name in ("f64", "f32"):
+            label = "float64" if name == "f64" else "float32"
+            if o["find_" + name] != want:
+                fails.append(f"wrong_bin: find_bin of {label} points {case['points']} gives {o['find_' + name]}, their true coordinates lie in {want}")
+            if o["fill_" + name] != want:
+                fails.append(f"wrong_bin: fill of {label} points returns {o['fill_' + name]}, their true coordinates lie in {want}")
+        shape = o["shape"]
+        exp = [0] * int(np.prod(shape))
+        missed = 0
+        for w in want:
+            if w is None:
+                missed += 1
+            else:
+                exp[int(np.ravel_multi_index(w, shape))] += 1
+        for key in ("fill_n_f64", "fill_n_f32", "fill_total_f64", "fill_total_f32"):
+            if o[key] != [exp, float(missed)]:
+                fails.append(f"paths: {key.replace('_', ' ')} gives contents {o[key][0]} (missed {o[key][1]}), the true coordinates give {exp} (missed {missed})")
+        return fails[:6]
 
     def gen_special(self, rng):
         klass = rng.choice(list(SRC_DIM))
@@ -1024,6 +1131,8 @@ class C15:
     def nontrivial(self, case, io):
         kind = case.get("kind", "special")
         o = io["outs"]
+        if kind == "f32":
+            return True
         if kind == "baddims":
             return len(case["calls"]) >= 1 and o["prefilled"]
         if kind == "radius":
